@@ -972,3 +972,430 @@ def c15(fb, rep):
 
 
 RULES['C15'] = c15
+
+
+# ================================================================================================ seventh batch (F113 - F116: keyed containers)
+def c19c(fb, rep):
+    """R19.14: a QUERY of the keyed containers (DataSet / ClassSet: a bool member function that takes a DataKey from the caller) subscripts theitem[k.idx]
+    only together with comparisons of k.idx against 0 and against size() - an assert does not count, the function is the range check.  (F113)
+    R19.15: a loop that fills a freshly allocated block `spx_alloc(p, N)` through p[i] is never bounded by the OLD capacity (max() / themax) alone.  (F114)
+    R19.16: theitem is addressed by key index: a loop that subscripts theitem with its own counter is bounded by size() / thesize / themax, never by
+    num() / thenum (which bounds loops over thekey).  (F115)
+    R19.17: the address handed to setMem() (or compared with mem()) is not formed with a bounds-asserting operator[] - it may legitimately be the address
+    one past the last element; get_ptr() + n is the form.  (F116; positive control in units/controls.cpp)"""
+    sets = [f for f in fb.funcs.values() if f.nodes and re.match(r'soplex::(DataSet|ClassSet)<', f.name)]
+    rep.rule('R19.14', 'DataSet / ClassSet: a bool query that takes a DataKey compares k.idx with 0 and size() before subscripting', floor=3)
+    k = 0
+    for f in sorted(sets, key=lambda g: g.name):
+        if not (f.params and len(f.params) == 1 and 'DataKey' in f.params[0][1] and f.short == 'has'):
+            continue
+        p = f.params[0][0]
+        subs = [n for n in f.nodes if n.k == 'ArraySubscriptExpr' and re.search(r'\b%s\.idx\b' % re.escape(p), render(n.kids[1])) and not f.in_assert(n)]
+        if not subs:
+            continue
+        k += 1
+        txt = ' '.join(render(n) for n in f.nodes if n.k == 'BinaryOperator' and n.o in ('<', '>=', '>', '<=') and not f.in_assert(n))
+        lo = bool(re.search(r'%s\.idx >= 0|0 <= %s\.idx|%s\.idx > -1' % (p, p, p), txt))
+        hi = bool(re.search(r'%s\.idx < (size\(\)|thesize|this->thesize)' % p, txt))
+        rep.check(lo and hi, 'R19.14', f.name.replace('soplex::', '')[:70], f.where(), 'range test present',
+                  'has(DataKey) subscripts theitem[%s.idx] without comparing %s.idx with %s: for a key the set never contained it reads beyond the array / uninitialised marks, after '
+                  'clear() it answers true for every former element' % (p, p, ' and '.join(x for x, y in (('0', lo), ('size()', hi)) if not y)))
+    if k < 3:
+        raise AnalysisBroken('R19.14: only %d has(DataKey) bodies found' % k)
+
+    rep.rule('R19.15', 'a loop that fills a freshly allocated block is not bounded by the old capacity alone', floor=8)
+    k = 0
+    for f in sorted(fb.funcs.values(), key=lambda g: (g.file, g.line, g.name)):
+        if not f.nodes or not f.name.startswith('soplex::') or not re.search(r'/(classset|dataset|classarray|dataarray|dsvectorbase|nameset|svsetbase|array)\.(h|hpp|cpp)$', f.file):
+            continue
+        for n in f.nodes:
+            if not (n.k == 'CallExpr' and n.short == 'spx_alloc' and len(n.args()) == 2):
+                continue
+            a = strip(n.args()[0])
+            if not (a.k == 'DeclRefExpr' and a.dk == 'local'):
+                continue
+            N = render(strip(n.args()[1]))
+            for l in f.nodes:
+                if l.k != 'ForStmt' or l.l <= n.l or l.kid('body') is None or l.kid('cond') is None or l.kid('inc') is None:
+                    continue
+                m = re.search(r'(\w+)\+\+|\+\+(\w+)', render(l.kid('inc')))
+                v = (m.group(1) or m.group(2)) if m else None
+                if not v or not any(x.k == 'ArraySubscriptExpr' and render(strip(x.kids[0])) == a.short and render(strip(x.kids[1])) == v for x in l.kid('body').walk()):
+                    continue
+                k += 1
+                ct = render(l.kid('cond'))
+                conj = [c.strip() for c in re.split(r'&&', ct)]
+                old_only = all(re.fullmatch(r'\(*%s < (this->)?(max\(\)|themax)\)*' % v, c) for c in conj)
+                rep.check(not old_only or N in ('max()', 'themax'), 'R19.15', '%s|%s[%s]#%d' % (f.name.replace('soplex::', '')[:50], a.short, v, k), '%s:%d' % (f.file, l.l), 'bounded by (%s)' % ct[:40],
+                          'the block %s has %s elements, the loop that fills it runs while %s: when the new capacity is smaller than the old one it writes behind the block' % (a.short, N, ct))
+    if k < 8:
+        raise AnalysisBroken('R19.15: only %d loops over freshly allocated blocks found' % k)
+
+    rep.rule('R19.16', 'DataSet / ClassSet: a loop that subscripts theitem with its counter is bounded by size() / thesize / themax, not by num()', floor=4)
+    k = 0
+    for f in sorted(sets, key=lambda g: g.name):
+        for l in f.nodes:
+            if l.k != 'ForStmt' or l.kid('body') is None or l.kid('cond') is None or l.kid('inc') is None:
+                continue
+            m = re.search(r'(\w+)\+\+|\+\+(\w+)', render(l.kid('inc')))
+            v = (m.group(1) or m.group(2)) if m else None
+            if not v:
+                continue
+            hit = [x for x in l.kid('body').walk() if x.k == 'ArraySubscriptExpr' and re.search(r'(^|\.|>)theitem$', render(strip(x.kids[0]))) and render(strip(x.kids[1])) == v]
+            if not hit:
+                continue
+            k += 1
+            ct = render(l.kid('cond'))
+            bad = re.search(r'%s < \(?(\w+(\.|->))?(thenum|num\(\))' % v, ct)
+            rep.check(not bad, 'R19.16', '%s|loop(%s)#%d' % (f.name.replace('soplex::', '')[:60], ct[:30], k), '%s:%d' % (f.file, l.l), 'bounded by (%s)' % ct[:40],
+                      'theitem[%s] is addressed by key index (occupied range [0, size())), the loop stops at the NUMBER of elements: after a removal that leaves a hole the slots '
+                      'num()..size()-1 (live elements and the free list) are skipped' % v)
+    if k < 4:
+        raise AnalysisBroken('R19.16: only %d loops over theitem found' % k)
+
+    rep.rule('R19.17', 'the address given to setMem() / compared with mem() is not formed with a bounds-asserting operator[]', floor=8)
+    k = 0
+    ctl = False
+    for f in sorted(fb.funcs.values(), key=lambda g: (g.file, g.line, g.name)):
+        isctl = f.name.startswith('verif_ctl::')
+        if not f.nodes or not (isctl or (f.name.startswith('soplex::SVSetBase<'))):
+            continue
+        for n in f.nodes:
+            cands = []
+            if n.k == 'CXXMemberCallExpr' and n.short == 'setMem' and len(n.args()) == 2:
+                cands = [n.args()[1]]
+            elif n.k == 'BinaryOperator' and n.o in ('==', '!=') and any(re.search(r'(->|\.)mem\(\)$', render(strip(x))) for x in n.kids):
+                cands = list(n.kids)
+            else:
+                continue
+            if not isctl:
+                k += 1
+            bad = None
+            for c_ in cands:
+                for x in c_.walk():
+                    if x.k == 'UnaryOperator' and render(x).lstrip('(').startswith('&'):
+                        op = strip(x.kids[0])
+                        if (op.k == 'CXXOperatorCallExpr' and op.o == '[]') or (op.k == 'CXXMemberCallExpr' and op.short == 'operator[]'):
+                            bad = x
+            if isctl:
+                ctl = ctl or bad is not None
+                continue
+            rep.check(bad is None, 'R19.17', '%s|%s#%d' % (f.short, render(n)[:30], k), '%s:%d' % (f.file, n.l), 'address by pointer arithmetic',
+                      '`%s` forms the address with the bounds-asserting operator[]: for a vector without memory behind the last nonzero the index equals the size and builds with '
+                      'assertions abort (addRowsRational / addColsRational on LPs with empty rows or columns)' % (render(bad)[:60] if bad else ''))
+    if not ctl:
+        raise AnalysisBroken('R19.17: the positive control verif_ctl::address_by_checked_subscript did not match')
+    if k < 8:
+        raise AnalysisBroken('R19.17: only %d setMem() calls / mem() comparisons found in SVSetBase' % k)
+
+
+_c19d = RULES['C19']
+
+
+def _c19e(fb, rep):
+    _c19d(fb, rep)
+    c19c(fb, rep)
+
+
+RULES['C19'] = _c19e
+
+
+# ================================================================================================ eighth batch (F117 - F122: parameters)
+def c15b(fb, rep):
+    """R15.10: setSettings() has the effect of the typed setter calls: it does not assign the stored settings (*_currentSettings / its value arrays) before
+    it calls the setters, which compare with the value still in effect.  (F117)
+    R15.11: an arm of setIntParam / setRealParam that changes the stored LPs (a change* / clear call on _realLP / _rationalLP) invalidates the solution in
+    the same arm.  (F118)
+    R15.12: both text parsers recognise a '#' that ends the value token as the start of a comment (a test of `*line == '#'` between the value-token loop
+    and the check for trailing characters).  (F119)
+    R15.13: both text parsers convert the value token with the position argument of std::stoi / stod / stoul and compare the character at that position
+    with NUL; the type token is compared exactly (strcmp), not by prefix.  (F120)
+    R15.14: a setter arm does not forward a value through a pointer that another parameter re-targets (_scaler, _simplifier, _starter and their boosted
+    twins): the object selected later never sees it.  (F121)
+    R15.15: no == / != comparison against realParam(INFTY): "no limit" is >= INFTY / <= -INFTY.  (F122)"""
+    from engine import case_arm_nodes
+    # ---- R15.10
+    rep.rule('R15.10', 'setSettings() does not overwrite the stored settings before calling the typed setters', floor=3)
+    f = fb.one(C + '::setSettings')
+    calls = [n for n in f.nodes if n.k == 'CXXMemberCallExpr' and re.fullmatch(r'set(Bool|Int|Real|Rational)Param', n.short or '')]
+    if len(calls) < 3:
+        raise AnalysisBroken('R15.10: setSettings() calls only %d typed setters' % len(calls))
+    wr = [n for n in f.nodes if n.k in ('BinaryOperator', 'CXXOperatorCallExpr') and n.o == '=' and '_currentSettings' in render(n.kids[0] if n.k == 'BinaryOperator' else n.args()[0])]
+    for c_ in calls:
+        before = [w for w in wr if w.l < c_.l]
+        rep.check(not before, 'R15.10', 'setSettings|%s' % c_.short, '%s:%d' % (f.file, c_.l), 'argument is %s' % render(c_.args()[1])[:40],
+                  'the stored settings are assigned at line %d before %s() is called: the setter compares with the value "in effect" and sees the new one (SYNCMODE 0 -> 1 creates no '
+                  'rational LP, a rejected value stays stored)' % (before[0].l if before else 0, c_.short))
+    # ---- R15.11
+    rep.rule('R15.11', 'a setter arm that changes the stored LPs invalidates the solution', floor=2)
+    k = 0
+    for nm in ('setIntParam', 'setRealParam', 'setBoolParam'):
+        for g in fb.find(C + '::' + nm):
+            for cs in g.nodes or []:
+                if cs.k != 'CaseStmt' or (cs.kids and cs.kids[-1].k in ('CaseStmt', 'DefaultStmt')):
+                    continue
+                arm = case_arm_nodes(g, cs)
+                mut = [n for n in arm if n.k == 'CXXMemberCallExpr' and re.match(r'change\w+|clear$|add\w+|remove\w+', n.short or '') and n.obj() is not None
+                       and render(strip(n.obj())).replace('this->', '') in ('_realLP', '_rationalLP')]
+                if not mut:
+                    continue
+                k += 1
+                lab = render(strip(cs.kids[0])).split('::')[-1]
+                inv = [n for n in arm if n.k == 'CXXMemberCallExpr' and n.short == '_invalidateSolution']
+                # SYNCMODE: the arm creates / drops the rational LP, the floating-point LP and its solution are untouched
+                acc = lab.startswith('SYNCMODE')
+                rep.check(bool(inv) or acc, 'R15.11', '%s|case %s' % (nm, lab), '%s:%d' % (g.file, cs.l), '_invalidateSolution()' if inv else 'accepted: only the rational copy of the LP is created / dropped',
+                          'the arm %s changes the stored LP (%s) and keeps status and solution: status() stays OPTIMAL and objValueReal() reports the value of the LP before the change'
+                          % (lab, render(mut[0])[:40]))
+    if k < 2:
+        raise AnalysisBroken('R15.11: only %d setter arms that change the stored LPs' % k)
+    # ---- R15.12 / R15.13
+    rep.rule('R15.12', 'text parsers: a # that ends the value token starts a comment', floor=2)
+    rep.rule('R15.13', 'text parsers: conversions consume the whole value token; the type token is compared exactly', floor=8)
+    k13 = 0
+    for nm in ('_parseSettingsLine', 'parseSettingsString'):
+        g = fb.one(C + '::' + nm)
+        loops = [n for n in g.nodes if n.k == 'WhileStmt' and n.kid('cond') is not None and "'#'" in render(n.kid('cond')) or (n.k == 'WhileStmt' and n.kid('cond') is not None and '35' in render(n.kid('cond')))]
+        if not loops:
+            rep.unrec('R15.12', nm, g.where(), 'no token loop with # in its stop set found')
+        else:
+            last = max(loops, key=lambda n: n.l)
+            after = [n for n in g.nodes if n.k == 'IfStmt' and n.l > last.l and n.kid('cond') is not None]
+            first = min(after, key=lambda n: n.l) if after else None
+            ok = first is not None and re.search(r"\*line == ('#'|35)", render(first.kid('cond'))) is not None
+            rep.check(ok, 'R15.12', nm, '%s:%d' % (g.file, last.l), 'tested right after the token',
+                      'the value token stops at # (line %d) but the next test is `%s`: the # is overwritten and the comment text is examined as trailing garbage - "int:iterlimit = 6# c" is rejected'
+                      % (last.l, render(first.kid('cond'))[:40] if first else ''))
+        for n in g.nodes:
+            if n.k == 'CallExpr' and n.short in ('stoi', 'stol', 'stoul', 'stoull', 'stod', 'stof', 'stold'):
+                k13 += 1
+                has_pos = len([a for a in n.args() if a.k != 'CXXDefaultArgExpr']) >= 2
+                cmp_ = any(x.k == 'BinaryOperator' and x.o in ('!=', '==') and re.search(r'paramValueString\[\w+\]', render(x)) for x in g.nodes)
+                rep.check(has_pos and cmp_, 'R15.13', '%s|%s#%d' % (nm, n.short, k13), '%s:%d' % (g.file, n.l), 'position argument compared with the end of the token',
+                          'std::%s(paramValueString) converts the longest numeric prefix and the number of characters consumed is not looked at: "12abc" is 12, "7.9" is 7' % n.short)
+            if n.k == 'CallExpr' and n.short in ('strncmp', 'strcmp') and re.search(r'\(paramTypeString,', render(n)):
+                k13 += 1
+                rep.check(n.short == 'strcmp', 'R15.13', '%s|type %s#%d' % (nm, render(n.args()[1]), k13), '%s:%d' % (g.file, n.l), 'exact',
+                          '`%s` accepts every type token that starts with the literal ("integer:", "realx:")' % render(n)[:50])
+    if k13 < 8:
+        raise AnalysisBroken('R15.13: only %d conversions / type comparisons found' % k13)
+    # ---- R15.14
+    rep.rule('R15.14', 'a setter arm forwards a value to a component object, not through a pointer that another parameter re-targets', floor=2)
+    RET = ('_scaler', '_simplifier', '_starter', '_boostedScaler', '_boostedSimplifier')
+    k = 0
+    for nm in ('setIntParam', 'setRealParam', 'setBoolParam'):
+        for g in fb.find(C + '::' + nm):
+            for n in g.nodes or []:
+                if n.k == 'CXXMemberCallExpr' and re.fullmatch(r'set(Int|Real|Bool)Param', n.short or '') and n.obj() is not None and strip(n.obj()).k != 'CXXThisExpr':
+                    k += 1
+                    o = render(strip(n.obj())).replace('this->', '')
+                    rep.check(o not in RET, 'R15.14', '%s|%s.%s#%d' % (nm, o, n.short, k), '%s:%d' % (g.file, n.l), 'component %s' % o,
+                              'the value is forwarded through %s, which points at whatever object is selected at the moment: set while another one is selected it is lost (the getter '
+                              'still returns it), so the effect depends on the order of the calls' % o)
+    if k < 2:
+        raise AnalysisBroken('R15.14: only %d forwards to components found' % k)
+    # ---- R15.15
+    rep.rule('R15.15', 'no == / != comparison against realParam(INFTY)', floor=20)
+    k = 0
+    for g in sorted(fb.methods_of(C), key=lambda h: (h.file, h.line)):
+        for n in g.nodes or []:
+            # one operand IS the threshold (possibly negated / cast), not an expression that contains it
+            if n.k == 'BinaryOperator' and n.o in ('==', '!=', '<', '>', '<=', '>=') and not g.in_assert(n) \
+                    and any(re.fullmatch(r'\(?(\(\w+\))?-?\(?(\(\w+\))?realParam\((SoPlexBase<\w+>::)?INFTY\)\)?\)?', render(strip(x))) for x in n.kids):
+                k += 1
+                rep.check(n.o not in ('==', '!='), 'R15.15', '%s|%s#%d' % (g.short, render(n)[:40], k), '%s:%d' % (g.file, n.l), n.o,
+                          '`%s`: the infinity threshold is a parameter ([1e10, 1e100]) while defaults and user data use 1e100 - equality fails for every other threshold (the '
+                          'simplifier was silently skipped)' % render(n)[:70])
+    if k < 20:
+        raise AnalysisBroken('R15.15: only %d comparisons with realParam(INFTY)' % k)
+
+
+_c15a = RULES['C15']
+
+
+def _c15(fb, rep):
+    _c15a(fb, rep)
+    c15b(fb, rep)
+
+
+RULES['C15'] = _c15
+
+
+# ================================================================================================ ninth batch (containers, readers: F123 ...)
+def c19d(fb, rep):
+    """R19.18: DataArray / ClassArray ::reMax(newMax, newSize): the new capacity is clamped against the size IN EFFECT (thesize / size()), not against the
+    newSize argument, whose default -1 means "keep the size".
+    R19.19: an assignment-like member of SVectorBase that fills m_elem[] from a source (operator=, assign*, scaleAssign) sets the size afterwards.
+    R19.20: Array::insert(i, ...) - "before the i'th element" - inserts at begin() + i."""
+    rep.rule('R19.18', 'DataArray / ClassArray: reMax() clamps the new capacity against the size in effect', floor=2)
+    k = 0
+    for f in sorted(fb.funcs.values(), key=lambda g: g.name):
+        if not f.nodes or not re.match(r'soplex::(DataArray|ClassArray)<', f.name) or f.short != 'reMax' or len(f.params) != 2:
+            continue
+        cap, siz = f.params[0][0], f.params[1][0]
+        cl = [n for n in f.nodes if n.k == 'IfStmt' and n.kid('cond') is not None and re.search(r'\b%s < ' % re.escape(cap), render(n.kid('cond')))
+              and any(x.k == 'BinaryOperator' and x.o == '=' and render(strip(x.kids[0])) == cap for x in n.kid('then').walk())]
+        cl = [n for n in cl if not re.search(r'< \(?[01]\)?\)?$', render(n.kid('cond')))]
+        if not cl:
+            continue
+        k += 1
+        ct = render(cl[0].kid('cond'))
+        # either against the size in effect, or against the size argument after it was normalised (`if(newSize < 0) newSize = size();`)
+        norm = any(x.k == 'BinaryOperator' and x.o == '=' and render(strip(x.kids[0])) == siz and re.search(r'(this->)?(thesize|size\(\))', render(x.kids[1])) and x.l < cl[0].l for x in f.nodes)
+        ok = bool(re.search(r'< \(?(this->)?(thesize|size\(\))', ct)) or (norm and re.search(r'< \(?%s\b' % re.escape(siz), ct) is not None)
+        rep.check(ok, 'R19.18', f.name.replace('soplex::', '')[:60], '%s:%d' % (f.file, cl[0].l), ct[:40],
+                  'reMax() clamps the capacity with `%s`: %s is -1 when the caller keeps the size, so the capacity can drop below size() and the block is re-allocated smaller than its '
+                  'contents' % (ct[:40], siz))
+    if k < 2:
+        raise AnalysisBroken('R19.18: only %d reMax(newMax, newSize) bodies with a clamp found' % k)
+
+    rep.rule('R19.19', 'SVectorBase: a member that fills m_elem[] from a source vector sets the size afterwards', floor=5)
+    k = 0
+    for f in sorted(fb.funcs.values(), key=lambda g: (g.name, g.line)):
+        if not f.nodes or not re.match(r'soplex::SVectorBase<', f.name) or not f.params:
+            continue
+        writes = [n for n in f.nodes if n.k in ('BinaryOperator', 'CXXOperatorCallExpr') and n.o == '=' and re.match(r'\(?(this->)?m_elem\[', render(n.kids[0] if n.k == 'BinaryOperator' else n.args()[0]))
+                  and any(a.k in ('ForStmt', 'WhileStmt') for a in f.ancestors(n))]
+        writes += [n for n in f.nodes if n.k in ('BinaryOperator', 'CXXOperatorCallExpr') and n.o == '=' and re.search(r'^\(?\w+->(val|idx) = ', render(n)) and any(a.k in ('ForStmt', 'WhileStmt') for a in f.ancestors(n))]
+        if not writes or not re.match(r'operator=|assign|scaleAssign', f.short or ''):
+            continue
+        k += 1
+        ss = [n for n in f.nodes if n.k == 'CXXMemberCallExpr' and n.short == 'set_size' and n.l >= min(w.l for w in writes)]
+        rep.check(bool(ss), 'R19.19', '%s(%s)' % (f.name.replace('soplex::', '')[:50], ','.join(t[:18] for _, t in f.params)), f.where(), 'set_size() after the copy',
+                  '%s copies entries into m_elem[] and never calls set_size(): size() keeps its old value, the result looks empty / has a stale length' % f.short)
+    if k < 5:
+        raise AnalysisBroken('R19.19: only %d filling members of SVectorBase found' % k)
+
+    rep.rule('R19.20', 'Array::insert(i, ...) inserts at begin() + i', floor=2)
+    k = 0
+    for f in sorted(fb.funcs.values(), key=lambda g: (g.name, g.line)):
+        if not f.nodes or not re.match(r'soplex::Array<', f.name) or f.short != 'insert':
+            continue
+        for n in f.nodes:
+            if n.k == 'CXXMemberCallExpr' and n.short == 'insert' and n.args():
+                k += 1
+                a0 = render(strip(n.args()[0]))
+                a0 = re.sub(r'__gnu_cxx::__normal_iterator<[^()]*>\(', '(', a0)
+                rep.check(not re.search(r'begin\(\) \+ \w+\) - 1\)', a0), 'R19.20', '%s|%s#%d' % (f.name.replace('soplex::', '')[:40], a0[:30], k), '%s:%d' % (f.file, n.l), a0[:40],
+                          'insert(i, ...) is documented as "before the i\'th element" and inserts at `%s`: one position too early, and before begin() for i == 0' % a0[:40])
+    if k < 2:
+        raise AnalysisBroken('R19.20: only %d insert calls found in Array<T>::insert' % k)
+
+
+_c19f = RULES['C19']
+
+
+def _c19g(fb, rep):
+    _c19f(fb, rep)
+    c19d(fb, rep)
+
+
+RULES['C19'] = _c19g
+
+
+def c13(fb, rep):
+    """R13.15: the MPS readers decide on the indicator field (mps.field1()) with the whole token or with its first character inside a test that pins the
+    token; a test of a LATER character alone (`field1()[1] == 'I'`) also matches other valid indicators ("MI").
+    R13.16: MPSreadCols: a (row, value) pair is added to the column vector only in a chain that first tests whether the column already has that row.
+    R13.17: ratFromString(): the numerator/denominator branch tests the denominator before the number is returned."""
+    readers = [f for f in fb.funcs.values() if f.nodes and re.search(r'/spxlpbase_(real|rational)\.hpp$', f.file) and (f.short or '').startswith('MPSread')]
+    rep.rule('R13.15', 'MPS readers: no decision on a later character of the indicator field alone', floor=6)
+    k = 0
+    for f in sorted(readers, key=lambda g: (g.file, g.line)):
+        for n in f.nodes:
+            if n.k == 'BinaryOperator' and n.o in ('==', '!=') and re.search(r'field1\(\)\[(\d+)\]|\*(mps\.)?field1\(\)', render(n.kids[0])):
+                k += 1
+                m = re.search(r'field1\(\)\[(\d+)\]', render(n.kids[0]))
+                later = bool(m and int(m.group(1)) >= 1)
+                pinned = False
+                if later:
+                    for a in f.ancestors(n):
+                        if a.k == 'BinaryOperator' and a.o == '&&' and re.search(r'\*(mps\.)?field1\(\) ==|field1\(\)\[0\] ==|strcmp', render(a)):
+                            pinned = True
+                        if a.k in ('CaseStmt',) or (a.k == 'IfStmt' and a.kid('cond') is not None and not any(x.i == n.i for x in a.kid('cond').walk())
+                                                    and re.search(r'\*(mps\.)?field1\(\) ==|field1\(\)\[0\] ==', render(a.kid('cond')))):
+                            pinned = True
+                rep.check(not later or pinned, 'R13.15', '%s|%s#%d' % (f.short, render(n)[:30], k), '%s:%d' % (f.file, n.l), 'first character or pinned',
+                          '`%s` looks at a later character of the indicator only: it also matches other valid indicators with that letter (MI = lower bound minus infinity was taken '
+                          'for an integer bound)' % render(n)[:40])
+            elif n.k == 'CallExpr' and n.short == 'strcmp' and 'field1()' in render(n):
+                k += 1
+                rep.ok('R13.15', '%s|%s#%d' % (f.short, render(n)[:30], k), '%s:%d' % (f.file, n.l), 'whole token', nontrivial=False)
+    if k < 6:
+        raise AnalysisBroken('R13.15: only %d tests of the indicator field found' % k)
+    rep.rule('R13.16', 'MPSreadCols: an entry is added to the column only after testing that the column does not have the row yet', floor=4)
+    k = 0
+    for f in sorted(readers, key=lambda g: (g.file, g.line)):
+        if f.short != 'MPSreadCols':
+            continue
+        for n in f.nodes:
+            if n.k == 'CXXMemberCallExpr' and n.short == 'add' and n.obj() is not None and render(strip(n.obj())) == 'vec' and len(n.args()) == 2:
+                k += 1
+                idx = render(strip(n.args()[0]))
+                chain = [a for a in f.ancestors(n) if a.k == 'IfStmt']
+                tested = any(re.search(r'vec\.pos\(%s\) (>=|<) 0' % re.escape(idx), render(a.kid('cond'))) for a in chain if a.kid('cond') is not None)
+                rep.check(tested, 'R13.16', '%s|vec.add(%s)#%d' % (f.file.split('_')[-1][:8], idx, k), '%s:%d' % (f.file, n.l), 'vec.pos(%s) tested' % idx,
+                          'vec.add(%s, val) without looking whether the column already has an entry in row %s: a file that names a row twice gives a sparse vector with a duplicate index '
+                          '(the LU update aborts / solves with a wrong matrix)' % (idx, idx))
+    if k < 4:
+        raise AnalysisBroken('R13.16: only %d vec.add calls in MPSreadCols' % k)
+    rep.rule('R13.17', 'ratFromString(): a numerator/denominator token is checked for a non-positive denominator', floor=1)
+    fs = [f for f in fb.funcs.values() if f.nodes and f.name == 'soplex::ratFromString']
+    if not fs:
+        raise AnalysisBroken('R13.17: ratFromString not found')
+    f = fs[0]
+    den = [n for n in f.nodes if n.k in ('BinaryOperator', 'CXXOperatorCallExpr') and re.search(r'denominator\(\w+\) (<=|==|<) \(?0|mpz_sgn|is_zero', render(n)) and not f.in_assert(n)]
+    rep.check(bool(den), 'R13.17', 'ratFromString|denominator', f.where(), 'denominator tested',
+              'the token "n/d" goes to the GMP string constructor, which stores d = 0 unchecked; every later operation on that number is undefined (std::domain_error out of readFile(), '
+              'segmentation fault in __gmpn_mul_basecase)')
+
+
+_c13a = RULES.get('C13')
+
+
+def _c13(fb, rep):
+    if _c13a:
+        _c13a(fb, rep)
+    c13(fb, rep)
+
+
+RULES['C13'] = _c13
+
+
+def c14(fb, rep):
+    """R14.7: saveSettingsFile() writes the real parameters with at least 16 digits after the point in scientific notation (17 significant digits: a double
+    survives the round trip); the last precision set on the stream before the loop over the real parameters decides."""
+    rep.rule('R14.7', 'saveSettingsFile(): real parameters are written with a precision that round-trips a double', floor=1)
+    f = fb.one(C + '::saveSettingsFile')
+    loops = [n for n in f.nodes if n.k == 'ForStmt' and n.kid('cond') is not None and 'REALPARAM_COUNT' in render(n.kid('cond'))]
+    if not loops:
+        raise AnalysisBroken('R14.7: loop over the real parameters not found in saveSettingsFile')
+    lp = loops[0]
+    sets = [n for n in f.nodes if n.k == 'CallExpr' and n.short in ('setScientific', 'setFixed') and n.l < lp.l] + \
+           [n for n in f.nodes if n.k in ('CXXMemberCallExpr', 'CallExpr') and n.short in ('precision', 'setprecision') and n.l < lp.l]
+    if not sets:
+        raise AnalysisBroken('R14.7: no precision setting before the loop over the real parameters')
+    last = max(sets, key=lambda n: n.l)
+    args = [a for a in last.args() if a.k != 'CXXDefaultArgExpr']
+    prec = None
+    for a in args:
+        t = render(strip(a)).strip('()')
+        if re.fullmatch(r'\d+', t):
+            prec = int(t)
+    if last.short in ('setScientific', 'setFixed') and prec is None:
+        prec = 8        # default argument of SPxOut::setScientific / setFixed
+    rep.check(prec is not None and prec >= 16, 'R14.7', 'saveSettingsFile|real parameters', '%s:%d' % (f.file, last.l), 'precision %s' % prec,
+              'the last precision set before the real parameters are written is %s (`%s`): 3.333333333333333e-07 comes back as 3.33333333e-07, the restored solver does not have the '
+              'saved parameter values' % (prec, render(last)[:40]))
+
+
+_c14a = RULES.get('C14')
+
+
+def _c14(fb, rep):
+    if _c14a:
+        _c14a(fb, rep)
+    c14(fb, rep)
+
+
+RULES['C14'] = _c14
